@@ -45,6 +45,7 @@ from ..exceptions import NumpyException
 from .medoids import Medoids
 from ..dtw_barycenter import dba_loop
 from .. import dtw, dtw_ndim
+from .. import util_numpy
 
 
 def _distance_with_params(t):
@@ -69,9 +70,10 @@ def _distance_ndim_with_params(t):
 
 def _distance_c_with_params(t):
     series, means, dists_options = t
+    series = util_numpy.verify_np_array(series)
     min_i, min_d = -1, float('inf')
     for i, mean in enumerate(means):
-        d = dtw_cc.distance(series, mean, **dists_options)
+        d = dtw_cc.distance(series, util_numpy.verify_np_array(mean), **dists_options)
         if d < min_d:
             min_d, min_i = d, i
     return min_i, min_d
@@ -79,9 +81,10 @@ def _distance_c_with_params(t):
 
 def _distance_ndim_c_with_params(t):
     series, means, dists_options = t
+    series = util_numpy.verify_np_array(series)
     min_i, min_d = -1, float('inf')
     for i, mean in enumerate(means):
-        d = dtw_cc.distance_ndim(series, mean, **dists_options)
+        d = dtw_cc.distance_ndim(series, util_numpy.verify_np_array(mean), **dists_options)
         if d < min_d:
             min_d, min_i = d, i
     return min_i, min_d
